@@ -43,6 +43,7 @@ type c15World struct {
 	tok        int
 	ops        []string
 	bad        bool
+	streamOver bool // plain follow: the file was removed after its data was delivered; the stream must end
 }
 
 func (w *c15World) chunk(n int) []byte {
@@ -125,7 +126,7 @@ func (w *c15World) reader(initial int) {
 			if err == io.EOF {
 				w.readerEOF = true
 				w.eofAt = w.s.Now()
-				if w.fileExists {
+				if w.fileExists && !w.streamOver {
 					w.rc.Violate("eof-while-file-exists", "%s: Read returned io.EOF at fake t=%v although the file exists\nhistory:%s", w.mode(), w.s.Now(), w.history())
 				} else if w.reopen {
 					w.rc.Violate("eof-in-reopen-mode", "%s: Read returned io.EOF at fake t=%v in re-open follow mode\nhistory:%s", w.mode(), w.s.Now(), w.history())
@@ -176,7 +177,10 @@ func (w *c15World) appendBytes(f **os.File, n int, split bool) {
 	}
 	for _, p := range parts {
 		// the bytes exist in the file from here on: account them before the reader can see them
-		w.expected = append(w.expected, p...)
+		// (after a removal under plain follow the stream is over: bytes of a new file are not part of it)
+		if !w.streamOver {
+			w.expected = append(w.expected, p...)
+		}
 		w.incWritten += len(p)
 		if _, err := (*f).Write(p); err != nil {
 			panic(err)
@@ -263,10 +267,26 @@ func init() {
 					w.opf("remove (after %d delivered)", len(w.delivered))
 					fsnotify.SimNotify(w.path, fsnotify.Remove)
 					if !w.reopen {
-						ended = true
+						// plain follow must end the stream now, whatever happens to the path afterwards
+						w.streamOver = true
+						if t.WBool(1, 2) {
+							ended = true
+						}
 					}
-				case k >= 8 && !w.fileExists && w.reopen: // re-create
+				case k >= 8 && !w.fileExists && (w.reopen || w.streamOver): // re-create
 					prev := w.incDeliv
+					if w.streamOver {
+						// a new file at the path of an ended plain follow: nothing of it may be delivered
+						h, err := os.OpenFile(w.path, os.O_CREATE|os.O_EXCL|os.O_WRONLY|os.O_APPEND, 0o644)
+						if err != nil {
+							panic(err)
+						}
+						f = h
+						w.fileExists = true
+						w.opf("re-create (after the stream ended)")
+						fsnotify.SimNotify(w.path, fsnotify.Create)
+						continue
+					}
 					if w.poll && prev < 2 {
 						// the poller can only tell a new file from the old one when it is shorter than what was delivered
 						continue
@@ -305,13 +325,13 @@ func init() {
 			}
 			// bounded liveness once the history is over
 			done := w.waitUntil(c15Bound, func() bool {
-				if !w.fileExists && !w.reopen {
+				if w.streamOver {
 					return w.readerEOF && len(w.delivered) >= len(w.expected)
 				}
 				return len(w.delivered) >= len(w.expected)
 			})
 			if !done && !w.bad {
-				if !w.fileExists && !w.reopen && len(w.delivered) >= len(w.expected) {
+				if w.streamOver && len(w.delivered) >= len(w.expected) {
 					rc.Violate("liveness-eof", "%s: the file was removed after its data had been delivered, but Read did not return io.EOF within %v\nhistory:%s", w.mode(), c15Bound, w.history())
 				} else {
 					rc.Violate("liveness-delivery", "%s: %d of %d appended bytes were delivered %v after the last operation (reader done=%v eof=%v)\nmissing: %q\nhistory:%s",
